@@ -88,3 +88,70 @@ Section LinExt.
   Proof. intros. apply sched_run, linext_sched; assumption. Qed.
 End LinExt.
 Print Assumptions linext_run.
+
+(* The same development up to an equivalence on states and under an invariant
+   (used by C02: stores are compared extensionally, and commutation of two
+   independent statements needs stores in which no loop counter is live). *)
+Section LinExtEq.
+  Variables (A S : Type).
+  Variable step : A -> S -> S.
+  Variable eqS : S -> S -> Prop.
+  Variable Inv : S -> Prop.
+  Variable indep : A -> A -> Prop.
+  Hypothesis eqS_refl : forall s, eqS s s.
+  Hypothesis eqS_trans : forall a b c, eqS a b -> eqS b c -> eqS a c.
+  Hypothesis step_proper : forall a s s', eqS s s' -> eqS (step a s) (step a s').
+  Hypothesis step_inv : forall a s, Inv s -> Inv (step a s).
+  Hypothesis indep_sym : forall a b, indep a b -> indep b a.
+  Hypothesis indep_comm : forall a b s, indep a b -> Inv s ->
+                                        eqS (step a (step b s)) (step b (step a s)).
+
+  Notation run := (run A S step).
+
+  Lemma run_proper l : forall s s', eqS s s' -> eqS (run l s) (run l s').
+  Proof. induction l as [|a l IH]; intros s s' H; [exact H|]. cbn. apply IH, step_proper, H. Qed.
+
+  Lemma run_inv l : forall s, Inv s -> Inv (run l s).
+  Proof. induction l as [|a l IH]; intros s H; [exact H|]. cbn. apply IH, step_inv, H. Qed.
+
+  Lemma bubble_eq : forall l1 a s, Inv s -> (forall b, In b l1 -> indep b a) ->
+    eqS (run (l1 ++ [a]) s) (run (a :: l1) s).
+  Proof.
+    induction l1 as [|b l1 IH]; intros a s Hs H; [apply eqS_refl|].
+    change (run ((b :: l1) ++ [a]) s) with (run (l1 ++ [a]) (step b s)).
+    eapply eqS_trans; [apply IH; [apply step_inv, Hs|intros; apply H; now right]|].
+    change (run (a :: l1) (step b s)) with (run l1 (step a (step b s))).
+    change (run (a :: b :: l1) s) with (run l1 (step b (step a s))).
+    apply run_proper. apply indep_comm; [|exact Hs]. apply indep_sym, H. now left.
+  Qed.
+
+  Theorem sched_run_eq : forall l l', sched A indep l l' -> forall s, Inv s -> eqS (run l' s) (run l s).
+  Proof.
+    induction 1 as [|l1 a l2 l' Hind _ IH]; intros s Hs; [apply eqS_refl|].
+    change (run (a :: l') s) with (run l' (step a s)).
+    eapply eqS_trans; [apply IH, step_inv, Hs|].
+    replace (l1 ++ a :: l2) with ((l1 ++ [a]) ++ l2) by (rewrite <- app_assoc; reflexivity).
+    rewrite (run_app A S step l1 l2), (run_app A S step (l1 ++ [a]) l2).
+    apply run_proper.
+    change (run l1 (step a s)) with (run (a :: l1) s).
+    (* symmetric use of bubble_eq *)
+    assert (Hb := bubble_eq l1 a s Hs Hind).
+    (* we need eqS (run (a::l1) s) (run (l1++[a]) s): prove symmetric variant directly *)
+    clear IH. revert s Hs Hb. clear -eqS_refl eqS_trans step_proper step_inv indep_sym indep_comm Hind.
+    induction l1 as [|b l1 IH]; intros s Hs _; [apply eqS_refl|].
+    change (run ((b :: l1) ++ [a]) s) with (run (l1 ++ [a]) (step b s)).
+    change (run (a :: b :: l1) s) with (run l1 (step b (step a s))).
+    eapply eqS_trans; [|apply IH; [intros; apply Hind; now right|apply step_inv, Hs|]].
+    - change (run (a :: l1) (step b s)) with (run l1 (step a (step b s))).
+      apply run_proper. apply indep_comm; [|exact Hs]. apply Hind. now left.
+    - apply bubble_eq; [apply step_inv, Hs|intros; apply Hind; now right].
+  Qed.
+
+  Variable dep : A -> A -> Prop.
+  Hypothesis indep_dec : forall a b, {indep a b} + {~ indep a b}.
+
+  Corollary linext_run_eq l l' s : Inv s -> NoDup l -> Permutation l l' ->
+    ForallOrdPairs (cov A indep dep) l -> linext A dep l' -> eqS (run l' s) (run l s).
+  Proof. intros Hs ND P C LE. apply sched_run_eq; [|exact Hs]. eapply linext_sched; eassumption. Qed.
+End LinExtEq.
+Print Assumptions linext_run_eq.
